@@ -115,6 +115,11 @@ var xUnits = []xUnit{
 		Oracles: map[string]xOracle{"r.rand.Intn(len(r.staticWeightRouterCache))": {"draw_cache", "Z"}, "r.rand.Intn(len(r.endpoints))": {"draw_eps", "Z"}}},
 	{Name: "tr_ch_FindInt32", Dir: "tars/selector/consistenthash", Func: "ConsistentHash.FindInt32", Recv: true,
 		Ignore: []string{"c.RLock()", "defer c.RUnlock()"}},
+	// rtimer.TimeWheel.After: the bound check and the slot computation (the slot's channel is taken after the translated statements)
+	{Name: "tr_tw_After_pos", Dir: "tars/util/rtimer", Func: "TimeWheel.After", Recv: true,
+		From: "^", To: "pos = (tw.currPos + pos) % len(tw.timeWheel)", Outs: []string{"pos"},
+		After:  []string{"c := tw.timeWheel[pos]", "tw.lock.Unlock()", "return c"},
+		Ignore: []string{"tw.lock.Lock()"}, Oracles: map[string]xOracle{"len(tw.timeWheel)": {"wheel_size", "Z"}}},
 	// the registry <-> endpoint conversions (Tars2endpoint without its cache key)
 	{Name: "tr_Endpoint2tars", Dir: "tars/util/endpoint", Func: "Endpoint2tars"},
 	{Name: "tr_Tars2endpoint_build", Dir: "tars/util/endpoint", Func: "Tars2endpoint", From: "^", To: "e := Endpoint{",
@@ -268,10 +273,15 @@ func xlateUnit(root string, u *xUnit, units []xUnit, ld *xLoader, records map[st
 	}
 	// results
 	var rts []string
+	opaqueRes := false
 	if fd.Type.Results != nil {
 		for _, f := range fd.Type.Results.List {
 			// named results are accepted as long as the body never mentions them (they are not declared here, and a
 			// return without values is rejected)
+			if u.From != "" && !x.translatable(x.typeOf(f.Type)) { // a slice need not return: results outside the subset make any return fail
+				opaqueRes = true
+				continue
+			}
 			for i := 0; i < len(f.Names) || i < 1; i++ {
 				rts = append(rts, x.coqType(f.Type, x.typeOf(f.Type)))
 			}
@@ -283,6 +293,9 @@ func xlateUnit(root string, u *xUnit, units []xUnit, ld *xLoader, records map[st
 		}
 	}
 	x.nres = len(rts)
+	if opaqueRes {
+		x.nres = -1
+	}
 	if sig, ok := x.info.ObjectOf(fd.Name).Type().(*types.Signature); ok {
 		for i := 0; i < sig.Results().Len(); i++ {
 			x.resTypes = append(x.resTypes, sig.Results().At(i).Type())
@@ -298,6 +311,83 @@ func xlateUnit(root string, u *xUnit, units []xUnit, ld *xLoader, records map[st
 	}
 	if u.Writer != nil {
 		x.retType = "(list N * " + x.retType + ")"
+	}
+	// receiver fields (receiver-fields mode) and oracles become parameters; scanned over the translated statements
+	recvAndOracles := func(stmts []ast.Stmt, isSlice bool) {
+		if u.Recv { // the receiver's fields read / assigned by the body (outside oracle expressions)
+			if fd.Recv == nil || len(fd.Recv.List[0].Names) != 1 {
+				x.fail(fd, "receiver-fields mode needs a named receiver")
+			}
+			x.recv = x.info.ObjectOf(fd.Recv.List[0].Names[0])
+			read, written := map[*types.Var]bool{}, map[*types.Var]bool{}
+			for _, scanned := range stmts {
+				ast.Inspect(scanned, func(n ast.Node) bool {
+					if st, isStmt := n.(ast.Stmt); isStmt {
+						for _, ig := range u.Ignore {
+							if x.src(st) == ig {
+								return false
+							}
+						}
+					}
+					if e, ok := n.(ast.Expr); ok {
+						if _, isOracle := u.Oracles[x.src(e)]; isOracle {
+							return false
+						}
+						if f := x.field(e); f != nil {
+							read[f] = true
+						}
+					}
+					switch n := n.(type) {
+					case *ast.CallExpr:
+						if len(n.Args) == 2 {
+							if f := x.atomicField(n); f != nil {
+								written[f] = true
+							}
+						}
+					case *ast.AssignStmt:
+						for _, l := range n.Lhs {
+							if f := x.field(l); f != nil {
+								written[f] = true
+							}
+						}
+					case *ast.IncDecStmt:
+						if f := x.field(n.X); f != nil {
+							written[f] = true
+						}
+					}
+					return true
+				})
+			}
+			var fs []*types.Var
+			for f := range read {
+				fs = append(fs, f)
+			}
+			sort.Slice(fs, func(i, j int) bool { return fs[i].Pos() < fs[j].Pos() })
+			for _, f := range fs {
+				params = append(params, "("+x.declare(f)+" : "+x.coqType(fd, f.Type())+")")
+				if written[f] {
+					if isSlice {
+						x.fail(fd, "a statement slice in receiver-fields mode assigns the field %s", f.Name())
+					}
+					x.recvOut = append(x.recvOut, f)
+					rts = append(rts, x.coqType(fd, f.Type()))
+				}
+			}
+			if !isSlice {
+				x.retType = "(" + strings.Join(rts, " * ") + ")"
+				if len(rts) == 1 {
+					x.retType = rts[0]
+				}
+			}
+		}
+		var onames []string
+		for n := range u.Oracles {
+			onames = append(onames, n)
+		}
+		sort.Strings(onames)
+		for _, n := range onames {
+			params = append(params, "("+u.Oracles[n].Name+" : "+u.Oracles[n].Type+")")
+		}
 	}
 	body := fd.Body.List
 	var stateT, final string
@@ -356,66 +446,7 @@ func xlateUnit(root string, u *xUnit, units []xUnit, ld *xLoader, records map[st
 		if u.Fuel {
 			params = append([]string{"(fuel : nat)"}, params...)
 		}
-		if u.Recv { // the receiver's fields read / assigned by the body (outside oracle expressions)
-			if fd.Recv == nil || len(fd.Recv.List[0].Names) != 1 {
-				x.fail(fd, "receiver-fields mode needs a named receiver")
-			}
-			x.recv = x.info.ObjectOf(fd.Recv.List[0].Names[0])
-			read, written := map[*types.Var]bool{}, map[*types.Var]bool{}
-			ast.Inspect(fd.Body, func(n ast.Node) bool {
-				if e, ok := n.(ast.Expr); ok {
-					if _, isOracle := u.Oracles[x.src(e)]; isOracle {
-						return false
-					}
-					if f := x.field(e); f != nil {
-						read[f] = true
-					}
-				}
-				switch n := n.(type) {
-				case *ast.CallExpr:
-					if len(n.Args) == 2 {
-						if f := x.atomicField(n); f != nil {
-							written[f] = true
-						}
-					}
-				case *ast.AssignStmt:
-					for _, l := range n.Lhs {
-						if f := x.field(l); f != nil {
-							written[f] = true
-						}
-					}
-				case *ast.IncDecStmt:
-					if f := x.field(n.X); f != nil {
-						written[f] = true
-					}
-				}
-				return true
-			})
-			var fs []*types.Var
-			for f := range read {
-				fs = append(fs, f)
-			}
-			sort.Slice(fs, func(i, j int) bool { return fs[i].Pos() < fs[j].Pos() })
-			for _, f := range fs {
-				params = append(params, "("+x.declare(f)+" : "+x.coqType(fd, f.Type())+")")
-				if written[f] {
-					x.recvOut = append(x.recvOut, f)
-					rts = append(rts, x.coqType(fd, f.Type()))
-				}
-			}
-			x.retType = "(" + strings.Join(rts, " * ") + ")"
-			if len(rts) == 1 {
-				x.retType = rts[0]
-			}
-		}
-		var onames []string
-		for n := range u.Oracles {
-			onames = append(onames, n)
-		}
-		sort.Strings(onames)
-		for _, n := range onames {
-			params = append(params, "("+u.Oracles[n].Name+" : "+u.Oracles[n].Type+")")
-		}
+		recvAndOracles(fd.Body.List, false)
 		if u.Writer != nil {
 			params = append(params, "(out : list N)")
 			stateT, final = "(list N)", "Next out"
@@ -463,11 +494,15 @@ func xlateUnit(root string, u *xUnit, units []xUnit, ld *xLoader, records map[st
 		body = body[first : last+1]
 		lo, hi := body[0].Pos(), body[len(body)-1].End()
 		var free []*types.Var
+		var recvObj types.Object // receiver-fields mode: the receiver itself is not a parameter, its fields are
+		if u.Recv && fd.Recv != nil && len(fd.Recv.List[0].Names) == 1 {
+			recvObj = x.info.ObjectOf(fd.Recv.List[0].Names[0])
+		}
 		seen := map[*types.Var]bool{}
 		for _, s := range body {
 			ast.Inspect(s, func(n ast.Node) bool {
 				if id, ok := n.(*ast.Ident); ok {
-					if v, ok := x.info.Uses[id].(*types.Var); ok && !v.IsField() && !seen[v] && v.Parent() != p.pkg.Scope() && v.Parent() != types.Universe &&
+					if v, ok := x.info.Uses[id].(*types.Var); ok && !v.IsField() && !seen[v] && types.Object(v) != recvObj && v.Parent() != p.pkg.Scope() && v.Parent() != types.Universe &&
 						!(lo <= v.Pos() && v.Pos() < hi) && fd.Pos() <= v.Pos() && v.Pos() < fd.End() {
 						seen[v] = true
 						free = append(free, v)
@@ -482,6 +517,7 @@ func xlateUnit(root string, u *xUnit, units []xUnit, ld *xLoader, records map[st
 			x.paramNames = append(x.paramNames, x.names[v])
 			x.isParam[v] = true
 		}
+		recvAndOracles(body, true)
 		if u.State != nil { // state mode: the state is the last parameter and the first component of what is returned
 			params = append(params, "(rd : "+u.State.Type+")")
 			x.paramNames = append(x.paramNames, "rd")
